@@ -37,7 +37,7 @@ def scaler_case(cid, kind, X, w, wm, ws, cw, atol=(0, 1), rtol=(0, 1), tiny=True
     try:
         with warnings.catch_warnings():
             warnings.simplefilter("ignore")
-            sc = StandardFlexibleScaler(**kw).fit(Xf, sample_weight=sw)
+            sc = core.mk(StandardFlexibleScaler, **kw).fit(Xf, sample_weight=sw)
             T = sc.transform(Xf)
     except ValueError as e:
         c["raised"] = True
